@@ -373,6 +373,57 @@ func rulePtrFillGuard(c *Ctx) {
 		c.undecided(rule, "family", token.NoPos, "expander family not found by role")
 		return
 	}
+	// a resolver wrapper hands the pointer it had filled back only where the filling call is known to have
+	// succeeded (under ContinueOnError a failed decode leaves an allocated, empty value behind)
+	for _, g := range c.pkgFuncs() {
+		if !c.returnsFilledPointer(fam, g) {
+			continue
+		}
+		gfd := c.decl(g)
+		gn := c.funcName(gfd)
+		c.saw(gn)
+		// the error variable of the filling call
+		var errObj types.Object
+		ast.Inspect(gfd.Body, func(n ast.Node) bool {
+			as, ok := n.(*ast.AssignStmt)
+			if !ok || len(as.Rhs) != 1 {
+				return true
+			}
+			call, ok := unparen(as.Rhs[0]).(*ast.CallExpr)
+			if !ok {
+				return true
+			}
+			if h, isF := c.callee(call).(*types.Func); !isF || !(fam.members[h] || h == fam.resolveRef) {
+				return true
+			}
+			if eid, isId := as.Lhs[len(as.Lhs)-1].(*ast.Ident); isId && eid.Name != "_" && isErrorType(c.typeOf(eid)) {
+				errObj = c.objOf(eid)
+			}
+			return true
+		})
+		nret := 0
+		ast.Inspect(gfd.Body, func(n ast.Node) bool {
+			rs, ok := n.(*ast.ReturnStmt)
+			if !ok || len(rs.Results) < 1 || isNilIdent(c, rs.Results[0]) {
+				return true
+			}
+			if _, isId := unparen(rs.Results[0]).(*ast.Ident); !isId {
+				return true
+			}
+			nret++
+			succeeded := false
+			if errObj != nil {
+				for _, cl := range c.literalsAt(gfd, rs) {
+					if k := c.errCheckKind(cl.e, errObj); k == "nil" && !cl.neg || k == "nonnil" && cl.neg {
+						succeeded = true
+					}
+				}
+			}
+			c.ob(rule, fmt.Sprintf("%s:returns-filled#%d", gn, nret), rs.Pos(), succeeded,
+				"the value filled by resolving the $ref is handed back where the error of that resolution is not known to be nil: under ContinueOnError a target of the wrong JSON type leaves a half-decoded empty value, which the caller takes for the resolved schema")
+			return true
+		})
+	}
 	for _, f := range fam.order {
 		fd := c.decl(f)
 		fn := c.funcName(fd)
@@ -392,6 +443,26 @@ func rulePtrFillGuard(c *Ctx) {
 					filled[c.objOf(id)] = call
 				}
 			}
+		}
+		// a pointer filled inside a resolver wrapper and handed back: the caller's variable receiving it is the
+		// filled pointer, and the wrapper call is the resolution whose error must be known nil
+		for _, call := range c.familyCalls(fam, fd) {
+			g, _ := c.callee(call).(*types.Func)
+			if g == nil || !c.returnsFilledPointer(fam, g) {
+				continue
+			}
+			ast.Inspect(fd.Body, func(nd ast.Node) bool {
+				as, ok := nd.(*ast.AssignStmt)
+				if !ok || len(as.Rhs) != 1 || unparen(as.Rhs[0]) != ast.Expr(call) || len(as.Lhs) < 1 {
+					return true
+				}
+				if id, ok := as.Lhs[0].(*ast.Ident); ok && id.Name != "_" {
+					if _, isPtr := types.Unalias(c.objOf(id).Type()).(*types.Pointer); isPtr {
+						filled[c.objOf(id)] = call
+					}
+				}
+				return true
+			})
 		}
 		n := 0
 		for v, call := range filled {
@@ -590,4 +661,46 @@ func (c *Ctx) filledUsedOnlyOnSuccess(fam *expFamily, fd *ast.FuncDecl, fill *as
 		}
 	}
 	return uses > 0
+}
+
+// returnsFilledPointer: g is a resolver wrapper that declares a local pointer, hands its address to a family
+// call (which fills it) and returns it as its first result.
+func (c *Ctx) returnsFilledPointer(fam *expFamily, g *types.Func) bool {
+	if !c.isResolverWrapper(fam, g) {
+		return false
+	}
+	gfd := c.decl(g)
+	if gfd == nil || gfd.Body == nil {
+		return false
+	}
+	filled := map[types.Object]bool{}
+	ast.Inspect(gfd.Body, func(n ast.Node) bool {
+		call, ok := n.(*ast.CallExpr)
+		if !ok {
+			return true
+		}
+		if h, isF := c.callee(call).(*types.Func); !isF || !(fam.members[h] || h == fam.resolveRef) {
+			return true
+		}
+		for _, a := range call.Args {
+			if u, ok := unparen(a).(*ast.UnaryExpr); ok && u.Op == token.AND {
+				if id, ok := unparen(u.X).(*ast.Ident); ok {
+					if _, isPtr := types.Unalias(c.objOf(id).Type()).(*types.Pointer); isPtr {
+						filled[c.objOf(id)] = true
+					}
+				}
+			}
+		}
+		return true
+	})
+	ret := false
+	ast.Inspect(gfd.Body, func(n ast.Node) bool {
+		if rs, ok := n.(*ast.ReturnStmt); ok && len(rs.Results) >= 1 {
+			if id, ok := unparen(rs.Results[0]).(*ast.Ident); ok && filled[c.objOf(id)] {
+				ret = true
+			}
+		}
+		return true
+	})
+	return ret
 }
